@@ -561,6 +561,10 @@ func runC13(ctx *core.Ctx) {
 	run("c13nullpair", ctx.N(1, 12)*len(c13NullOperands)*2*len(c13SiteNames), func(i int, r *rand.Rand) {
 		c13NullCaseP(ctx, core.CaseRef{Stream: "c13nullpair", Index: i}, r, true)
 	})
+	// (run sequentially: the mode switch of this stream is a package variable)
+	ctx.Cases("c13likenull", ctx.N(1, 8)*len(c13NullOperands)*2*len(c13SiteNames), 1, func(i int, r *rand.Rand) {
+		c13LikeNullCase(ctx, core.CaseRef{Stream: "c13likenull", Index: i}, r)
+	})
 	c13AggStream(ctx)
 }
 
